@@ -381,6 +381,19 @@ def c06_cases(rng, tier):
     # (4b') graphs with deferred children through the single-mode entry points (a Checks pass on a cold cache is legal)
     g1, _ = c01_cases(rng, "quick")
     cases += rng.sample([c for c in g1 if c.startswith("api ")], 60 if tier == "quick" else 200)
+    # (4b'') many re-converging paths below a post-state reader: a ladder of diamonds (the work must grow with the nodes, not
+    # with the paths)
+    clr_ = lambda c_: [P(0), op("FREE"), P(0), op("RES"), op("DROP"), P(c_)]     # forget what was inherited, push c
+    for rungs in (12, 40, 64):
+        ch = []
+        for r_ in range(rungs):
+            a = 3 * r_
+            ch += [[a + 1, a + 2], [a + 3], [a + 3]]
+        ch.append([])
+        progs_ = [p_reader(5)] + [clr_(1 + i % 3) for i in range(1, len(ch) - 1)] + [p_sat()]
+        enc_ = encode_valid(ch)
+        pred_, pb_ = build_pred(enc_, progs_)
+        cases.append(check_case("twopass", False, [(ADDR_A, ADDR_B, [], [])], [(ADDR_A, ADDR_B, pred_)], pb_, []))
     # (4c) VM programs whose parallel children share lazily initialised state
     cases += V.pex_race_cases()
     # (5) the byte-level decoders
@@ -426,6 +439,24 @@ def encode_valid(children):
     for i in range(n):
         if py_node_edges(starts, edges, i) != list(children[i]):
             return None
+    return starts, edges
+
+
+def encode_alt(rng, children):
+    """another valid encoding of the same graph: some leaves are encoded with a real (empty) edge range instead of the
+    0xFFFF marker; None if the result does not decode back to `children`"""
+    starts, edges = [], []
+    for ch in children:
+        if not ch and rng.random() < 0.5:
+            starts.append(EDGE_MAX)
+        else:
+            starts.append(len(edges))
+            edges += ch
+    for i in range(len(children)):
+        if py_node_edges(starts, edges, i) != list(children[i]):
+            return None
+    if all(s_ == EDGE_MAX for s_, ch in zip(starts, children) if not ch):
+        return None
     return starts, edges
 
 
@@ -705,6 +736,11 @@ def c04_set(rng, clash=None):
             plan[i]["declared"].append((k, va)); plan[j]["computed"] = (k, vb)
         elif clash == "cd":
             plan[i]["computed"] = (k, va); plan[j]["declared"].append((k, vb))
+        elif clash == "c1c2":
+            # computed by a first-pass leaf of one solution and again by the deferred (second pass) leaf of the same / another one
+            plan[i]["computed"] = (k, va)
+            plan[j]["reader"] = [3]
+            plan[j]["report"] = k
         else:
             plan[i]["computed"] = (k, va); plan[j]["computed"] = (k, vb)
         # someone reads the contested slot from post-state, so a last-writer-wins overlay shows in the outputs
@@ -759,7 +795,7 @@ def c04_cases(rng, tier):
     cases.append("addr_set " + _st(pair[:2]))
     cases.append("addr_set " + _st(pair[1::-1]))
     n_sets = 60 if tier == "quick" else 1500
-    kinds = [None] * 6 + ["dd", "dd_pred", "dc", "cd", "cc"]
+    kinds = [None] * 6 + ["dd", "dd_pred", "dc", "cd", "cc", "c1c2"]
     pre_sets = [[], [(ADDR_A, [1], [11]), (ADDR_A, [4], [44]), (ADDR_C, [2], [22]), (ADDR_A, [5], [55]), (ADDR_C, [6], [66])]]
     for s in range(n_sets):
         clash = kinds[s % len(kinds)] if s < 2 * len(kinds) else rng.choice(kinds)
@@ -980,6 +1016,8 @@ def c01_graph_cases(rng, children, n_numberings, collect_all, n_sols):
         enc = encode_valid(ch2)
         if enc is None:
             continue
+        if rng.random() < 0.4:
+            enc = encode_alt(rng, ch2) or enc        # leaves written as empty edge ranges: same graph, same verdict
         pred, pbytes = build_pred(enc, kinds_programs(ch2, k2))
         sols = [(ADDR_A, ADDR_B, [], [])] + [(ADDR_C if i % 2 == 0 else ADDR_A, ADDR_B, [[i]], []) for i in range(n_sols - 1)]
         preds = [(ADDR_A, ADDR_B, pred), (ADDR_C, ADDR_B, pred)]
